@@ -152,3 +152,23 @@ Theorem record_faithful_text prm d regions x :
     /\ sm_data x = slice (sm_off x) (sm_off x + N.min (sm_len x) (p_match_max_length prm)) (f_mem r).
 Proof. intros Hwf. apply record_faithful_spans. now apply text_spans_ok. Qed.
 
+
+(* ------------------------------------------------------------------ the contract is needed: a nullable raw regex
+   (known finding C14-nullable-regex-zero-length).  A raw matcher whose find_next_match_at returns the
+   empty span at the current offset (what `/b*/` does on a byte that is not `b`) makes the loop of
+   scan_single_variable record zero-length matches: the record statement's "positive length" fails. *)
+Definition empty_span_matcher : matcher :=
+  {| mt_literals := [];
+     mt_mods := {| m_fullword := false; m_wide := false; m_ascii := true; m_nocase := false; m_xor_start := None |};
+     mt_process := fun _ _ _ _ _ => AcNone;
+     mt_find_next := fun mem o => if o <? nlen mem then Some (o, o) else None |}.
+
+Lemma raw_zero_length_refuted :
+  map (fun x => (sm_off x, sm_len x))
+      (scan_var_direct {| p_match_max_length := 512; p_max_nb_matches := 1000 |} empty_span_matcher [97; 97; 98])
+  = [(0, 0); (1, 0); (2, 0)]
+  /\ ~ matcher_spans_ok empty_span_matcher.
+Proof.
+  split; [vm_compute; reflexivity|].
+  intros [_ H]. specialize (H [97] 0 0 0 eq_refl). destruct H as [H _]. lia.
+Qed.
